@@ -401,9 +401,9 @@ def state_tag_agrees(ctx, db, rid='C01.state-tag-agrees'):
             ctx.ob(rid, f, f['key'], bad is None, '%s %s only the member of its switch arm' % (name.split('::')[-1], kind) + ('' if not bad else ' -- ' + bad), desc=bad, inst=f['inst'])
 
 
-def has_value_agrees(ctx, db):
+def has_value_agrees(ctx, db, rid='C01.has-value-agrees'):
     """has_value(): the two ways to read the answer (co_await -> await_resume, conversion to bool) must both say "resolved with anything but no-value" """
-    rid = ctx.rule('C01.has-value-agrees', 'SIBLINGS', 'future::awaitable_bool::await_resume and operator bool return exactly (_state != not_value) on every path: a value, a reference and an '
+    rid = ctx.rule(rid, 'SIBLINGS', 'future::awaitable_bool::await_resume and operator bool return exactly (_state != not_value) on every path: a value, a reference and an '
                    'exception all count as "has a value", only a dropped promise does not', floor=2)
     for name in ('cocls::future::awaitable_bool::await_resume', 'cocls::future::awaitable_bool::operator bool'):
         for f, trs in traces_of(db, name, per_instance=False):
